@@ -107,7 +107,11 @@ def _check_time_increment(rep, owner, f, q, st, inc):
                       % key_text(st), st.lineno)
         return
     try:
-        p = eval_poly(inc, {})
+        # named intermediate values (`time_evolved = N_steps * dt`) are resolved; parameters and
+        # names bound more than once stay symbols
+        from ..core import local_defs
+        ld = {k: v[0] for k, v in local_defs(f).items() if len(v) == 1 and k not in params(f)}
+        p = _poly_of(inc, ld, {})
     except NotPoly:
         rep.violation('ACCOUNT-evolved_time', m, q, 'time-increment-shape',
                       'cannot read `%s` as N_steps * step' % unparse(inc), st.lineno)
@@ -577,40 +581,58 @@ def check_expmpo(prog, rep):
     f = m.func('ExpMPOEvolution.calc_U')
     dtn = params(f)[1]
     found = 0
-    for st in ast.walk(f):
-        if isinstance(st, ast.If) and isinstance(st.test, ast.Compare) and \
-                unparse(st.test.left) == 'order' and isinstance(st.test.comparators[0],
-                                                                 ast.Constant):
-            order = st.test.comparators[0].value
-            env = {}
-            args = {}
+    body = _body(f)
+    for order in _order_values(f):
+        steps = None
+        for p in run_paths(body, {'self._U_param == U_param': False,
+                                  'self.force_prepare_evolve': True}, {'order': order},
+                           substitute=False):
+            if p.outcome == 'raise':
+                continue
             lst = None
-            for b in st.body:
-                if isinstance(b, ast.Assign) and isinstance(b.value, ast.Call) and \
-                        isinstance(b.value.func, ast.Attribute) and b.value.func.attr == 'make_U':
-                    try:
-                        args[unparse(b.targets[0])] = eval_poly(b.value.args[0], {})
-                    except NotPoly as e:
-                        raise AnalysisError('ExpMPOEvolution.calc_U: %s' % e)
-                if isinstance(b, ast.Assign) and unparse(b.targets[0]) == 'self._U_MPO':
-                    lst = b.value
-            if lst is None or not isinstance(lst, ast.List):
-                raise AnalysisError('ExpMPOEvolution.calc_U: _U_MPO list not found for order %r' %
-                                    order)
+            for st in p.trace:
+                if isinstance(st, ast.Assign) and any(unparse(t) == 'self._U_MPO'
+                                                      for t in st.targets):
+                    lst = st.value
+            if lst is None:
+                continue
+            lst = _resolve_lists(lst, p.env)
+            args = []
+            if isinstance(lst, ast.List):
+                for e in lst.elts:
+                    if isinstance(e, ast.Call) and isinstance(e.func, ast.Attribute) and \
+                            e.func.attr == 'make_U' and e.args:
+                        args.append(e.args[0])
+                    else:
+                        raise AnalysisError('ExpMPOEvolution.calc_U: %s not a make_U result' %
+                                            unparse(e)[:60])
+            elif isinstance(lst, ast.ListComp) and len(lst.generators) == 1 and \
+                    isinstance(lst.elt, ast.Call) and isinstance(lst.elt.func, ast.Attribute) and \
+                    lst.elt.func.attr == 'make_U' and lst.elt.args and \
+                    unparse(lst.elt.args[0]) == unparse(lst.generators[0].target) and \
+                    isinstance(lst.generators[0].iter, (ast.List, ast.Tuple)):
+                args = list(lst.generators[0].iter.elts)
+            else:
+                raise AnalysisError('ExpMPOEvolution.calc_U: _U_MPO list not understood for '
+                                    'order %r: %s' % (order, unparse(lst)[:80]))
+            steps = args
+        if steps is None:
+            raise AnalysisError('ExpMPOEvolution.calc_U: _U_MPO list not found for order %r' %
+                                order)
+        try:
             total = Poly.const(0)
-            for e in lst.elts:
-                if unparse(e) not in args:
-                    raise AnalysisError('ExpMPOEvolution.calc_U: %s not a make_U result' %
-                                        unparse(e))
-                total = total + args[unparse(e)]
-            found += 1
-            rep.instance('EXPMPO-time-sum', {'order': order, 'sum': repr(total)})
-            want = Poly({(dtn, ): C(0, -1)})
-            if total != want:
-                rep.violation('EXPMPO-time-sum', m, 'ExpMPOEvolution.calc_U',
-                              'time-sum:%s' % order,
-                              'order %r: the arguments of make_U sum to [%r], expected [%r] '
-                              '(exp(-i H dt) per step)' % (order, total, want), st.lineno)
+            for a in steps:
+                total = total + eval_poly(a, {})
+        except NotPoly as e:
+            raise AnalysisError('ExpMPOEvolution.calc_U: %s' % e)
+        found += 1
+        rep.instance('EXPMPO-time-sum', {'order': order, 'sum': repr(total)})
+        want = Poly({(dtn, ): C(0, -1)})
+        if total != want:
+            rep.violation('EXPMPO-time-sum', m, 'ExpMPOEvolution.calc_U',
+                          'time-sum:%s' % order,
+                          'order %r: the arguments of make_U sum to [%r], expected [%r] '
+                          '(exp(-i H dt) per step)' % (order, total, want), f.lineno)
     if found < 2:
         raise AnalysisError('ExpMPOEvolution.calc_U: order branches not found')
     es = m.func('ExpMPOEvolution.evolve_step')
